@@ -2740,7 +2740,7 @@ loop 1:
                     !all_blank(r0, ls, end as int), all_blank(r0, end as int, self.blk().len() as int),
                     self.blk()[self.blk().len() - 1] == r0[self.blk().len() - 1],
                     all_blank(r0, 0, ls), ls == 0 || r0[ls - 1].kind == TokenKind::Newline,
-                    !single_marker(r0[ls].kind),    // [C17] more lines are gathered only for a block that does not start with `>>` or `=`
+                    !single_marker(r0[ls].kind),    // [C17] [C14] more lines are gathered only for a block that does not start with `>>` or `=`
                     no_marker_inside(r0, ls, end as int),     // [C14] and no gathered line starts with one
                 decreases (if self.blk()[self.blk().len() - 1].kind == TokenKind::Newline { 1nat } else { 0nat }), self.fuel()
 loopbody 1:
